@@ -908,6 +908,16 @@ def partitionByScript(
         for direction in (script_direction(script) for script in sorted(scripts)):
             side2Directions.setdefault(direction, set()).add(glyph)
 
+    def scriptsOfDirection(glyph: str, direction: str) -> set[str]:
+        # A glyph whose script extension spans scripts of both directions (e.g.
+        # U+0308, used by Latin and Hebrew) takes part in each direction only
+        # with the scripts of that direction.
+        return {
+            script
+            for script in resolvedScripts[glyph]
+            if script_direction(script) == direction
+        }
+
     for side1Direction, side2Direction in itertools.product(
         side1Directions, side2Directions
     ):
@@ -918,19 +928,19 @@ def partitionByScript(
         if pair.firstIsClass:
             localSide1 = tuple(sorted(side1Directions[side1Direction]))
             for glyph in localSide1:
-                side1Scripts |= resolvedScripts[glyph]
+                side1Scripts |= scriptsOfDirection(glyph, side1Direction)
         else:
             assert len(side1Directions[side1Direction]) == 1
             (localSide1,) = side1Directions[side1Direction]
-            side1Scripts |= resolvedScripts[localSide1]
+            side1Scripts |= scriptsOfDirection(localSide1, side1Direction)
         if pair.secondIsClass:
             localSide2 = tuple(sorted(side2Directions[side2Direction]))
             for glyph in localSide2:
-                side2Scripts |= resolvedScripts[glyph]
+                side2Scripts |= scriptsOfDirection(glyph, side2Direction)
         else:
             assert len(side2Directions[side2Direction]) == 1
             (localSide2,) = side2Directions[side2Direction]
-            side2Scripts |= resolvedScripts[localSide2]
+            side2Scripts |= scriptsOfDirection(localSide2, side2Direction)
 
         # Skip pairs with mixed direction.
         if side1Direction != side2Direction and not any(
